@@ -18,9 +18,11 @@ import time
 ROOT = os.path.dirname(os.path.dirname(os.path.abspath(__file__)))
 REPO = os.environ.get("VERIF_REPO", "/repo")
 SPEC = os.path.join(ROOT, "spec")
-WORK = os.path.join(ROOT, "work")
-EVID = os.path.join(ROOT, "evidence")
-REPLAYS = os.path.join(ROOT, "replays")
+# scratch evaluation of a modified tree (tools/seed_eval.py) redirects work / evidence / replays so that it does not
+# clobber the files of the checks running on /repo itself
+WORK = os.environ.get("VERIF_WORK") or os.path.join(ROOT, "work")
+EVID = os.environ.get("VERIF_EVID") or os.path.join(ROOT, "evidence")
+REPLAYS = os.environ.get("VERIF_REPLAYS") or os.path.join(ROOT, "replays")
 CLASSES = os.path.join(ROOT, "build", "classes")
 TLA_JAR = "/opt/veriftools/tla/tla2tools.jar"
 CM_JAR = "/opt/veriftools/tla/CommunityModules-deps.jar"
